@@ -179,7 +179,7 @@ pub fn c16_silent<N: Nd>(n: &mut N, kind: u8, ck: u8) {
 }
 
 /// (4): with two or more checkers only king moves are legal (reference-only).
-pub fn c01_double_check_ref<N: Nd>(n: &mut N) {
+pub fn double_check_ref_body<N: Nd>(n: &mut N) {
     let (p, _half, _full) = sym_accepted(n);
     let (f, t, pr) = sym_move(n);
     ck_cube(n, &p, 2);
@@ -519,8 +519,9 @@ pub fn step_play<N: Nd>(n: &mut N, cube: u8, want: u8, a: u32) {
 
 #[macro_export]
 macro_rules! bproofs {
-    ( $( $name:ident => $body:expr ; )* ) => {
+    ( $( $(#[$m:meta])* $name:ident => $body:expr ; )* ) => {
         $crate::proofs! { $(
+            $(#[$m])*
             #[kani::stub(cozy_chess::get_rook_moves, crate::stubs::rook_moves)]
             #[kani::stub(cozy_chess::get_bishop_moves, crate::stubs::bishop_moves)]
             #[kani::stub(cozy_chess::get_rook_rays, crate::stubs::rook_rays)]
@@ -530,6 +531,9 @@ macro_rules! bproofs {
             #[kani::stub(cozy_chess::get_knight_moves, crate::stubs::knight_moves)]
             #[kani::stub(cozy_chess::get_king_moves, crate::stubs::king_moves)]
             #[kani::stub(cozy_chess::get_pawn_attacks, crate::stubs::pawn_attacks)]
+            #[kani::stub(cozy_chess::Square::try_index, crate::stubs::square_try_index)]
+            #[kani::stub(cozy_chess::File::try_index, crate::stubs::file_try_index)]
+            #[kani::stub(cozy_chess::Rank::try_index, crate::stubs::rank_try_index)]
             $name => $body;
         )* }
     };
@@ -575,7 +579,7 @@ bproofs! {
     c01_gen_king_c2 => |n: &mut _| c01_gen(n, 5, 2);
     c16_gen_abort_king_c2 => |n: &mut _| c16_gen_abort(n, 5, 2);
     c16_silent_king_c2 => |n: &mut _| c16_silent(n, 5, 2);
-    c01_double_check_ref => |n: &mut _| c01_double_check_ref(n);
+    c01_double_check_ref => |n: &mut _| double_check_ref_body(n);
     c01_origin_pawn_c0 => |n: &mut _| c01_origin(n, 0, 0);
     c01_origin_pawn_c1 => |n: &mut _| c01_origin(n, 0, 1);
     c01_origin_pawn_c2 => |n: &mut _| c01_origin(n, 0, 2);
